@@ -248,6 +248,14 @@ impl SimState {
             std::panic::panic_any(BudgetExceeded);
         }
         let mut fired = vec![];
+        let env_change: Option<Option<String>> = self.faults.iter().find_map(|f| match f {
+            Fault::EnvAt { at, value } if *at == seq => Some(value.clone()),
+            _ => None,
+        });
+        if let Some(v) = env_change {
+            self.env = v.map(OsString::from);
+            fired.push("env_at");
+        }
         let due: Vec<Fault> = self
             .faults
             .iter()
